@@ -195,11 +195,16 @@ def generate_bn(streams, tier):
             op["n_states"] = r.choice(["universe", "universe", "int2", "none"])
             op["inplace"] = r.random() < 0.5
             op["seed"] = r.randrange(2**31)
-            ng = g if op["inplace"] else _copy.deepcopy(g)
-            for v in ng["nodes"]:
-                ng["cpd"][v] = {a for (a, b) in ng["edges"] if b == v}
-            if not op["inplace"]:
-                _sim_push(sim, m, ng)
+            if bad:
+                # a dict that passes the key check but carries one unusable cardinality: must be refused as a whole
+                op["n_states"] = "universe"
+                op["bad_value"] = {"pos": rf.randrange(6), "val": rf.choice([-1, 2.5, "x"])}
+            if not op.get("bad_value"):
+                ng = g if op["inplace"] else _copy.deepcopy(g)
+                for v in ng["nodes"]:
+                    ng["cpd"][v] = {a for (a, b) in ng["edges"] if b == v}
+                if not op["inplace"]:
+                    _sim_push(sim, m, ng)
         elif kind == "probe":
             op["v"] = r.choice(nodes) if nodes else 0
         elif kind == "dag_ctor":
@@ -696,6 +701,10 @@ def execute_bn(case, ctx):
             arg = None
             if ns == "universe":
                 arg = {L(x): u["card"][x] for x in ref.nodes}
+                if op.get("bad_value") and len(model.nodes()) > 0:
+                    order = list(model.nodes())
+                    arg[order[op["bad_value"]["pos"] % len(order)]] = op["bad_value"]["val"]
+                    must = "either"
             elif ns == "int2":
                 arg = 2
             inplace = op["inplace"]
